@@ -396,6 +396,93 @@ PROPS["C10"] = dict(
                      "enabled while any call is unanswered, and done_calls_answered)"],
 )
 
+def c08_sticky_search(cx):
+    """last clause of C08 ("every later call panics too") evaluated directly on the real ChanCaster: in every sequential
+    casterword case, once a call has panicked no later call may succeed.  The clause is false of the unchanged code in two
+    ways (known finding F6); any other way is a new violation."""
+    import re
+    from vcheck import run_corr, split_cases, VERIF
+    MAXR = 2147483647
+    corr_bin = cx.bins["corr"]
+    runs = []
+    cdir = os.path.join(VERIF, "corpus", "casterword")
+    if os.path.isdir(cdir):
+        for fn in sorted(os.listdir(cdir)):
+            if fn.endswith(".ops"):
+                runs.append(run_corr(corr_bin, "casterword", ["-script", os.path.join(cdir, fn)], cx.work, "sticky-" + fn))
+    runs.append(run_corr(corr_bin, "casterword", ["-seed", str(cx.seed * 7919 + 11), "-n", str(300 if cx.quick() else 20000), "-tier", cx.tier], cx.work, "sticky-gen"))
+    seen, checked, after_panic = {}, 0, 0
+    for r in runs:
+        for cid, lines in split_cases(r["trace"]).items():
+            checked += 1
+            first, prev_w, first_prev_w = None, 0, 0
+            ops = []
+            for ln in lines:
+                m = re.match(r"(add|send) (-?\d+) => (ok (-?\d+)|panic|skipped)(?: w=(\d+))?", ln)
+                if not m:
+                    continue
+                op, arg, res, w = m.group(1), int(m.group(2)), m.group(3), m.group(5)
+                ops.append(ln)
+                if res == "skipped":
+                    continue
+                w = int(w)
+                if first is None:
+                    if res == "panic":
+                        first, first_prev_w, first_w = (op, arg), prev_w, w
+                else:
+                    after_panic += 1
+                    if res != "panic":
+                        # the clause is violated here: classify by how the successful call became possible
+                        if first[0] == "add" and abs(first[1]) > MAXR and first_w == first_prev_w:
+                            cls = "out-of-bounds-delta-panics-without-a-trace"
+                        elif (prev_w >> 32) == (prev_w & 0xffffffff) and (prev_w >> 32) <= MAXR:
+                            cls = "a-later-panicking-add-restores-a-valid-word"
+                        else:
+                            cls = "other"
+                        if cls not in seen:
+                            seen[cls] = (cid, list(ops))
+                        break
+                prev_w = w
+    cx.cov["evaluations"] += checked
+    cx.cov["components"].append(dict(family="casterword/sticky-monitor", cases=checked, calls_after_a_panic=after_panic, classes=sorted(seen)))
+    cx.rules.append("sticky monitor: in every sequential casterword case, after the first panicking call no later call may return normally (evaluated on the real code)")
+    for cls, (cid, ops) in seen.items():
+        cx.violation("sticky", f"a call succeeded after an earlier call had panicked ({cls}): " + " ; ".join(ops[-6:]),
+                     dict(property="C08", kind="sticky", cls=cls, case=cid, input=[o.split(" => ")[0] for o in ops], observed=ops,
+                          how="bin/check replay <this file> re-runs the operations on the real ChanCaster"),
+                     found_input=True, cls=cls, family="casterword")
+
+PROPS["C08"] = dict(
+    lean_targets=["BB.Props.C08"],
+    theorems=["BB.Props.C08.contract_never_panics", "BB.Props.C08.one_send_at_a_time", "BB.Props.C08.arm_counts_current_registrations",
+              "BB.Props.C08.sends_bounded", "BB.Props.C08.send_counts", "BB.Props.C08.no_registration_during_send", "BB.Props.C08.racing_deregistration",
+              "BB.Props.C08.registrations_conserved", "BB.Props.C08.send_never_stuck", "BB.Props.C08.absorbing_never_stuck",
+              "BB.Props.C08.out_of_range_add_panics", "BB.Props.C08.unbalanced_remove_during_send_panics", "BB.Props.C08.in_range_add_ok",
+              "BB.Props.C08.panic_sticky_partial", "BB.Props.C08.panic_not_sticky", "BB.Props.C08.out_of_bounds_delta_leaves_no_trace",
+              "BB.Caster.cinv_reach"],
+    corr=[dict(family="casterword", quick=400, thorough=30000, mismatch_is_violation=True,
+               nontrivial=has("panic_overflow", "panic_underflow", "panic_out_of_bounds_delta", "panic_on_bad_word", "panic_restores_valid_word",
+                              "send_buffered", "send_panic_on_bad_word"),
+               rule="casterword: sequential Add(delta) / Send calls on one real ChanCaster (buffered channel so that Send completes alone): mostly in-range deltas tracked by the "
+                    "generator, plus unbalanced removals, overflows, deltas at and beyond +-MaxInt32, +-2^32, Min/MaxInt64, and arbitrary calls after the first panic; panics recovered; "
+                    "after every call the returned value, panic or not, and the 64-bit state word must equal the Lean word model's; non-trivial = a panic of each kind, calls on a "
+                    "corrupted word, a buffered Send"),
+          dict(family="caster", quick=200, thorough=8000, mismatch_is_violation=True, no_shrink=True,
+               nontrivial=has("remove_during_send", "cas_failed_by_racing_remove", "remove_between_load_and_cas", "send_with_removals", "absorb", "send_slow_zero"),
+               rule="caster: 1-3 senders (1-3 Sends each) and 1-6 contract-following receivers (Add(+1..3), then per registration receive or Add(-k) after a PRNG delay / at stop) "
+                    "on one real ChanCaster over an unbuffered channel; every atomic operation on the state word is bracketed by begin/end hooks whose handler serialises them and "
+                    "logs the word they left; lock-section hooks; the halves of each channel rendezvous are paired under their program-order constraints; the log must be accepted "
+                    "step by step by the Lean protocol model (exact state word at every atomic event, CAS success/failure, who absorbs what, every received value is the armed "
+                    "Send's, every Send's return value, word 0 and nothing outstanding at the end); non-trivial = a removal racing an armed Send / landing between load and CAS")],
+    custom=[c08_sticky_search],
+    assumptions=["sync.RWMutex as writer flag + 'some reader inside' (writer preference not modelled: more behaviours, safety unaffected); atomics sequentially consistent",
+                 "unbuffered channel = rendezvous; receivers follow Add's contract (balanced removals, no receive without registration, total <= MaxInt32): outside it only the "
+                 "word-level theorems apply",
+                 "buffered channels: only the word arithmetic (casterword) is tied; the protocol theorems are for the unbuffered case"],
+    open_statements=["'every later call panics too' is false of the code (panic_not_sticky, known finding F6); proved instead: panic_sticky_partial",
+                     "termination of Send/Add as leadsTo under fairness (proved: send_never_stuck / absorbing_never_stuck = an enabled rendezvous always exists)"],
+)
+
 with_conform(PROPS["C01"], "Buffer")
 with_conform(PROPS["C02"], "Buffer")
 with_conform(PROPS["C03"], "Buffer")
@@ -420,3 +507,4 @@ with_conform(PROPS["C12"], "Lifecycle", "Cleanup", "WaitCond", "Channel", "Ctx",
 PROPS["C12"]["theorems"] += ["BB.LockOrder.no_wait_cycle", "BB.LockOrder.no_deadlock_of_ranked"]
 with_conform(PROPS["C09"], "Exclusive")
 with_conform(PROPS["C10"], "Exclusive")
+with_conform(PROPS["C08"], "Caster")
